@@ -1,17 +1,201 @@
+/-
+  cgv-hub — the judge of HUB.md: reads one trace event per line, answers `ok`, `MISMATCH …` or `FAIL …`.
+    1. store replay: every executed RPC runs on the Lean MVCC model (MvccRpc.rpcExec); answers must agree
+    2. C04 monitor (Model/Percolator.lean) on the protocol-relevant projection of the events
+    3. history oracles at `quiesce` / `audit …` / snapshot API calls (C01, C02, C03, C05, C06)
+-/
 import ClientGoVerif.Model.MvccRpc
-open CGV CGV.Mvcc CGV.MvccProto CGV.MvccRpc
+import ClientGoVerif.Model.Percolator
+open CGV CGV.Mvcc CGV.MvccProto CGV.MvccRpc CGV.Perc
+
+/-- one read of the API-level history -/
+structure ReadRec where
+  startTS : Nat
+  key : Bytes
+  value : Option Bytes
+  deriving Repr
+
+structure Pending where
+  client : String
+  callNo : String
+  call : String
+  args : List String
+  deriving Repr
 
 structure JState where
   store : Store := {}
+  mon : MState := {}
+  curTxn : List (String × Nat) := []          -- client ↦ start ts of its open transaction
+  pending : List Pending := []
+  reads : List ReadRec := []
+  ownWrites : List (Nat × Bytes) := []        -- (startTS, key) the transaction has written/deleted/locked-with-value so far
+  acked : List (Nat × Nat) := []              -- (startTS, commitTS) of commits acknowledged to the client, newest first
+  maxAckedCommit : Nat := 0
+  told : List (Nat × String) := []            -- startTS ↦ what Commit answered: ok <c> | undetermined | err <class>
+  inserted : List (Nat × Bytes) := []         -- (startTS, key) written as insert
+  pessLocked : List (Nat × Bytes) := []       -- (startTS, key) locked by LockKeys (pessimistic)
+  commitPointLost : List Nat := []            -- start ts of txns with a commit-point RPC whose outcome the client could not learn
+  deriving Repr
 
-/-- split the tokens of an rpc/lost event at "=>" -/
 def splitArrow (w : List String) : List String × List String :=
   (w.takeWhile (· != "=>"), (w.dropWhile (· != "=>")).drop 1)
+
+def curOf (j : JState) (client : String) : Nat :=
+  match j.curTxn.find? (·.1 == client) with | some (_, t) => t | none => 0
+
+/-- every `locked(key,primary,startTS,forUpdateTS,ttl,txnSize,type)` inside an answer -/
+def lockedIn (ans : String) : List (Nat × Nat) :=
+  (ans.splitOn "locked(").drop 1 |>.filterMap fun part =>
+    match ((part.splitOn ")").headD "").splitOn "," with
+    | [_, _, st, _, ttl, _, _] => do pure ((← st.toNat?), (← ttl.toNat?))
+    | _ => none
+
+def parseMutTriples (s : String) : List (Bytes × Op × Bytes) :=
+  match parseMuts s with
+  | some ms => ms.map fun (m, _) => (m.key, m.op, m.value)
+  | none => []
+
+def fateOf (kind cls : String) : Fate :=
+  if kind == "rpc" then .answered
+  else if kind == "lost" then .lostResp
+  else if cls.startsWith "regionerr" then .notExecuted
+  else .unknownNotExec
+
+/-- protocol events of one RPC-ish trace event -/
+def evsOfRpc (kind client cls : String) (cmd ans : List String) : List Ev :=
+  let fate := fateOf kind cls
+  let answer := " ".intercalate ans
+  let answered := fate == .answered
+  let locks : List Ev := if answered then (lockedIn answer).map fun (st, ttl) => Ev.lockSeen client st ttl else []
+  let main : List Ev :=
+    match cmd with
+    | ["prewrite", p, st, _fu, _ttl, mc, _sz, _ao, _rs, ms, asyncT, onepcT, secT] =>
+      match hx p, st.toNat?, mc.toNat? with
+      | some p, some st, some mc =>
+        let ok := answered && (ans.headD "") == "errs=-"
+        let minResp := ((ans.getD 1 "").splitOn "=").getD 1 "0" |>.toNat? |>.getD 0
+        [Ev.prewrite client fate st p (parseMutTriples ms) mc ok minResp (onepcT == "onepc=1") (asyncT == "async=1")
+          ((tokVal "secondaries=" secT >>= parseHexList).getD [])]
+      | _, _, _ => []
+    | ["commit", ks, st, ct] =>
+      match parseHexList ks, st.toNat?, ct.toNat? with
+      | some ks, some st, some ct =>
+        [Ev.commit client fate st ct ks (ans.headD "" == "ok") (ans.headD "" == "err")]
+      | _, _, _ => []
+    | ["rollback", ks, st] =>
+      match parseHexList ks, st.toNat? with
+      | some ks, some st => [Ev.rollback client fate st ks]
+      | _, _ => []
+    | ["status", p, lt, cs, cur, rb, _rp] =>
+      match hx p, lt.toNat?, cs.toNat?, cur.toNat? with
+      | some p, some lt, some cs, some cur =>
+        let isErr := ans.headD "" != "ok"
+        let ttl := ((ans.getD 1 "").splitOn "=").getD 1 "0" |>.toNat? |>.getD 0
+        let cts := ((ans.getD 2 "").splitOn "=").getD 1 "0" |>.toNat? |>.getD 0
+        [Ev.status client fate p lt cs cur (rb == "1") answered ttl cts isErr]
+      | _, _, _, _ => []
+    | ["resolve", _, _, st, ct, infos, _keys] =>
+      match st.toNat?, ct.toNat?, (tokVal "infos=" infos >>= parsePairs) with
+      | some st, some ct, some infos => [Ev.resolve client fate st ct infos]
+      | _, _, _ => []
+    | ["heartbeat", p, st, adv] =>
+      match hx p, st.toNat?, adv.toNat? with
+      | some p, some st, some adv => [Ev.heartbeat client fate p st adv]
+      | _, _, _ => []
+    | _ => []
+  main ++ locks
+
+def runMon (m : MState) (evs : List Ev) : Except String MState := evs.foldlM Monitor.step m
+
+/-- pairs `k=v,k=v` of an API result -/
+def parseKVs (s : String) : List (Bytes × Bytes) :=
+  (splitList s).filterMap fun p => match p.splitOn "=" with
+    | [k, v] => do pure ((← hx k), (← hx v))
+    | _ => none
+
+def optVal (s : String) : Option Bytes := if s == "~" then none else hx s
+
+/-! ### oracles -/
+
+/-- C01: every snapshot read of a transaction equals the newest commit at or below its start ts in the final store
+    (reads of keys the transaction wrote itself before are excluded when they were recorded) -/
+def siReads (j : JState) : Option String :=
+  j.reads.findSome? fun r =>
+    let exp := visible j.store r.key r.startTS
+    let exp' := match exp with | some v => if v.isEmpty then none else some v | none => none
+    if exp' == r.value then none
+    else some s!"C01 read of {hexOrTilde r.key} by txn {r.startTS} returned {optBytes r.value} but the newest commit at or below its start ts is {optBytes exp'}"
+
+/-- C01: committed writers of one key have disjoint [start, commit] intervals (a pessimistic transaction that locked
+    the key is exempt: its interval for that key starts at the for-update ts of its lock) -/
+def wwCheck (j : JState) : Option String :=
+  j.store.kv.findSome? fun (k, e) =>
+    let ds := e.writes.filter fun w => w.vt == .put || w.vt == .delete
+    ds.findSome? fun w1 => ds.findSome? fun w2 =>
+      if w1.startTS < w2.startTS && w2.startTS < w1.commitTS && !j.pessLocked.contains (w2.startTS, k)
+          && !j.pessLocked.contains (w1.startTS, k) then
+        some s!"C01 key {hexOrTilde k}: committed writers {w1.startTS}..{w1.commitTS} and {w2.startTS}..{w2.commitTS} overlap"
+      else none
+
+/-- C01: an insert commits only if the key has no value at the commit point -/
+def insertCheck (j : JState) : Option String :=
+  j.inserted.findSome? fun (st, k) =>
+    match outcomeOf j.store st with
+    | .committed c =>
+      let older := (getEntry j.store.kv k).writes.filter fun w => w.startTS != st && w.commitTS < c && (w.vt == .put || w.vt == .delete)
+      match older.head? with
+      | some w => if w.vt == .put then some s!"C01 insert of {hexOrTilde k} by {st} committed at {c} over an existing value" else none
+      | none => none
+    | _ => none
+
+/-- C02: records of every transaction are all-or-nothing with one commit ts -/
+def atomicAll (j : JState) : Option String :=
+  let starts := (j.store.kv.flatMap fun (_, e) => e.writes.map (·.startTS)).eraseDups
+  starts.findSome? fun st =>
+    match outcomeOf j.store st with
+    | .mixed why => if why.endsWith "lock left" then none else some s!"C02 transaction {st}: {why}"
+    | _ => none
+
+/-- C03: what Commit told the client against the MVCC truth -/
+def toldCheck (j : JState) : Option String :=
+  j.told.findSome? fun (st, what) =>
+    let o := outcomeOf j.store st
+    let committedAt : Option Nat := match o with
+      | .committed c => some c
+      | .mixed _ => ((j.store.kv.flatMap fun (_, e) => e.writes.filter fun w => w.startTS == st && w.vt != .rollback).head?).map (·.commitTS)
+      | _ => none
+    match what.splitOn " " with
+    | ["ok", c] =>
+      if committedAt == c.toNat? && committedAt.isSome then none
+      else some s!"C03 Commit of {st} answered success at {c} but the store shows {repr o}"
+    | ["undetermined"] =>
+      if j.commitPointLost.contains st then none
+      else some s!"C03 Commit of {st} answered undetermined although no commit-point request lost its outcome"
+    | "err" :: _ =>
+      if committedAt.isSome then some s!"C03 Commit of {st} answered a definite error but the transaction is committed" else none
+    | _ => none
+
+def firstSome (l : List (Option String)) : Option String := l.findSome? id
 
 def step (j : JState) (line : String) : JState × String :=
   match words line with
   | ["reset"] => ({}, "ok")
-  | kind :: _id :: _client :: rs :: re :: rest =>
+  | ["tso", client, ts] =>
+    match ts.toNat? with
+    | some ts =>
+      match Monitor.step j.mon (.tso client ts) with
+      | .ok m => ({ j with mon := m }, "ok")
+      | .error e => (j, s!"FAIL C04 {e}")
+    | none => (j, "MISMATCH malformed-event")
+  | "norpc" :: _id :: client :: cls :: cmd =>
+    let evs := evsOfRpc "norpc" client cls cmd []
+    let lostCommit : List Nat := match cmd with
+      | ["commit", _, st, _] => if cls.startsWith "regionerr" then [] else (st.toNat?.toList)
+      | _ => []
+    match runMon j.mon evs with
+    | .ok m => ({ j with mon := m, commitPointLost := j.commitPointLost ++ lostCommit }, "ok")
+    | .error e => (j, s!"FAIL C04 {e}")
+  | kind :: _id :: client :: rs :: re :: rest =>
     if kind == "rpc" || kind == "lost" then
       let (cmd, ans) := splitArrow rest
       match hx rs, hx re with
@@ -20,10 +204,130 @@ def step (j : JState) (line : String) : JState × String :=
         | none => (j, "MISMATCH malformed-event")
         | some (s', modelAns) =>
           let rec_ := " ".intercalate ans
-          if answersAgree (cmd.headD "") modelAns rec_ then ({ j with store := s' }, "ok")
-          else ({ j with store := s' }, s!"MISMATCH store-answer model: {modelAns}")
+          let j1 := { j with store := s' }
+          let lostCommit : List Nat := match cmd with
+            | ["commit", _, st, _] => if kind == "lost" then st.toNat?.toList else []
+            | _ => []
+          let j1 := { j1 with commitPointLost := j1.commitPointLost ++ lostCommit }
+          if !answersAgree (cmd.headD "") modelAns rec_ then (j1, s!"MISMATCH store-answer model: {modelAns}")
+          else
+            match runMon j1.mon (evsOfRpc kind client "" cmd ans) with
+            | .ok m => ({ j1 with mon := m }, "ok")
+            | .error e => (j1, s!"FAIL C04 {e}")
       | _, _ => (j, "MISMATCH malformed-event")
+    else if kind == "api" then
+      -- api <client> <call#> begin <call> <args…> | api <client> <call#> end <result…>
+      let client := _id
+      let callNo := client ++ "#" ++ (words line).getD 2 ""
+      let client' := (words line).getD 1 ""
+      let phase := (words line).getD 3 ""
+      let tail := (words line).drop 4
+      if phase == "begin" then
+        let p : Pending := { client := client', callNo := callNo, call := tail.headD "", args := tail.drop 1 }
+        let j1 := { j with pending := p :: j.pending.filter (·.callNo != callNo) }
+        if p.call == "commit" then
+          match Monitor.step j1.mon (.commitCalled client' (curOf j1 client')) with
+          | .ok m => ({ j1 with mon := m }, "ok")
+          | .error e => (j1, s!"FAIL C04 {e}")
+        else (j1, "ok")
+      else
+        match j.pending.find? (·.callNo == callNo) with
+        | none => (j, "MISMATCH api end without begin")
+        | some p =>
+          let j1 := { j with pending := j.pending.filter (·.callNo != callNo) }
+          let st := curOf j1 p.client
+          let okRes := tail.headD "" == "ok"
+          let monEv (j : JState) (evs : List Ev) (extra : Option String) : JState × String :=
+            match runMon j.mon evs with
+            | .ok m => ({ j with mon := m }, match extra with | some f => s!"FAIL {f}" | none => "ok")
+            | .error e => (j, s!"FAIL C04 {e}")
+          match p.call, p.args with
+          | "begin", pess :: _ =>
+            match (tail.headD "").toNat? with
+            | some ts =>
+              -- C01 external consistency: a commit acknowledged before this begin is visible to it
+              let ext := if ts < j1.maxAckedCommit then
+                  some s!"C01 begin at {ts} after a commit at {j1.maxAckedCommit} was acknowledged" else none
+              monEv { j1 with curTxn := (p.client, ts) :: j1.curTxn.filter (·.1 != p.client) } [.begin_ p.client ts (pess == "1")] ext
+            | none => (j1, "ok")
+          | "get", [k] =>
+            match hx k with
+            | some k =>
+              if okRes && !j1.ownWrites.contains (st, k) then
+                ({ j1 with reads := { startTS := st, key := k, value := optVal (tail.getD 1 "~") } :: j1.reads }, "ok")
+              else if tail == ["err", "notfound"] && !j1.ownWrites.contains (st, k) then
+                ({ j1 with reads := { startTS := st, key := k, value := none } :: j1.reads }, "ok")
+              else (j1, "ok")
+            | none => (j1, "ok")
+          | "bget", [ks] =>
+            match parseHexList ks with
+            | some ks =>
+              if okRes then
+                let got := parseKVs (tail.getD 1 "-")
+                let rs := (ks.filter fun k => !j1.ownWrites.contains (st, k)).map fun k =>
+                  ({ startTS := st, key := k, value := (got.find? (·.1 == k)).map (·.2) } : ReadRec)
+                ({ j1 with reads := rs ++ j1.reads }, "ok")
+              else (j1, "ok")
+            | none => (j1, "ok")
+          | "set", [k, v] =>
+            match hx k, hx v with
+            | some k, some v => if okRes then monEv { j1 with ownWrites := (st, k) :: j1.ownWrites } [.bufSet p.client st k v false] none else (j1, "ok")
+            | _, _ => (j1, "ok")
+          | "insert", [k, v] =>
+            match hx k, hx v with
+            | some k, some v =>
+              if okRes then monEv { j1 with ownWrites := (st, k) :: j1.ownWrites, inserted := (st, k) :: j1.inserted } [.bufSet p.client st k v true] none
+              else (j1, "ok")
+            | _, _ => (j1, "ok")
+          | "delete", [k] =>
+            match hx k with
+            | some k => if okRes then monEv { j1 with ownWrites := (st, k) :: j1.ownWrites, inserted := j1.inserted.filter (· != (st, k)) } [.bufDelete p.client st k] none else (j1, "ok")
+            | none => (j1, "ok")
+          | "lock", ks :: _ =>
+            match parseHexList ks with
+            | some ks =>
+              if okRes then monEv { j1 with pessLocked := ks.map (fun k => (st, k)) ++ j1.pessLocked } [.bufLock p.client st ks] none
+              else (j1, "ok")
+            | none => (j1, "ok")
+          | "commit", _ =>
+            let what := " ".intercalate tail
+            let j2 := { j1 with told := (st, what) :: j1.told }
+            let j3 := match tail with
+              | ["ok", c] => match c.toNat? with
+                | some c => { j2 with acked := (st, c) :: j2.acked, maxAckedCommit := max j2.maxAckedCommit c }
+                | none => j2
+              | _ => j2
+            monEv j3 [.ended p.client st] none
+          | "rollback", _ => monEv j1 [.ended p.client st] none
+          | _, _ => (j1, "ok")
     else (j, "ok")
+  | ["quiesce"] =>
+    match firstSome [siReads j, wwCheck j, insertCheck j, atomicAll j, toldCheck j] with
+    | some f => (j, s!"FAIL {f}")
+    | none => (j, "ok")
+  | "audit" :: "mvcc" :: k :: rest =>
+    match hx k with
+    | some k =>
+      let model := dumpEntry (getEntry j.store.kv k)
+      if model == " ".intercalate rest then (j, "ok") else (j, s!"MISMATCH mvcc-dump model: {model}")
+    | none => (j, "MISMATCH malformed-event")
+  | ["audit", "locks", ls] =>
+    let modelLocks := showList ((scanLock j.store [] [] maxU64).map fun (k, p, t) => s!"{hexOrTilde k}/{hexOrTilde p}/{t}")
+    if modelLocks != ls then (j, s!"MISMATCH locks model: {modelLocks}")
+    else
+      -- C06: no lock of a transaction whose owner saw it end
+      let bad := (scanLock j.store [] [] maxU64).find? fun (_, _, t) =>
+        match j.mon.find t with | some tx => tx.ended | none => false
+      match bad with
+      | some (k, _, t) => (j, s!"FAIL C06 lock of finished transaction {t} left on {hexOrTilde k}")
+      | none => (j, "ok")
+  | ["audit", "nolocks", st] =>
+    match st.toNat? with
+    | some st =>
+      match (scanLock j.store [] [] maxU64).find? fun (_, _, t) => t == st with
+      | some (k, _, _) => (j, s!"FAIL C02 lock of transaction {st} still on {hexOrTilde k} after recovery")
+      | none => (j, "ok")
+    | none => (j, "MISMATCH malformed-event")
   | _ => (j, "ok")
 
 def main : IO Unit := runDriver ({} : JState) step
